@@ -77,6 +77,9 @@ func (e *Exec) runPath(pkg *ssa.Package, fn *ssa.Function, prefix []Decision) (r
 	e.observed = nil
 	e.model = nil
 	e.allowPanic = false
+	e.codecLog = nil
+	e.gzipLog = nil
+	e.havocSeq = 0
 	e.objs = map[string]Value{}
 	e.clock = nil
 	e.errSeq = 0
